@@ -83,7 +83,8 @@ func VerifC03Cache() {
 	if err != nil {
 		panic(err)
 	}
-	nl := 1 + verifChoice("namelen", 2)
+	// param "maxlen": longest name (default 2; 3 lets two tagged names share the text before the first ';')
+	nl := 1 + verifChoice("namelen", verifParamInt("maxlen", 2))
 	for i := 0; i < 3; i++ {
 		if verifBool("tick-before") {
 			verifClock += int64(verifInt("advance", 0, 1000))
